@@ -101,7 +101,7 @@ def subparent_cases(tier):
         if tier == "quick" and hash(combo) % 2:
             continue
         for pk in SUBPARENTS:
-            for sk in ("e", "ep_sub", "e_cond"):
+            for sk in ("e", "ep_sub", "e_cond", "e_or", "e_notand"):
                 yield (("sub", pk) + combo, sk, "none", True)
 
 
@@ -180,6 +180,11 @@ def query_of(case):
             return ("Q", "an", "setof", (e,), (), (VX,))
         if sk == "ep_sub":
             return ("Q", "an", "setof", (e, parent), (), (VX,))
+        if sk == "e_or":        # a disjunction whose first side (about the sub-query) is false everywhere: the false rows of
+            # the comparison bind the sub-query to its non-solutions, whose elements are no elements of the result
+            return ("Q", "an", "setof", (e,), (("or", ("cmp", "gt", A(parent, "p"), L(9)), ("cmp", "ge", e, L(1))),), (VX,))
+        if sk == "e_notand":
+            return ("Q", "an", "setof", (e,), (("not", ("and", ("cmp", "le", A(parent, "p"), L(9)), ("cmp", "lt", e, L(1)))),), (VX,))
         return ("Q", "an", "setof", (e,), (("cmp", "ge", e, L(1)),), (VX,))
     c = (OCONDS if combo and combo[0] == "obj" else CONDS)[ck]
     return ("Q", "an", "setof", SELS[sk], (c,) if c else (), (VX, VZ) if ck.startswith("unrel") else (VX,))
@@ -221,7 +226,7 @@ def run_case(case, inst):
         return got1, got2, exp, total
 
     got1, got2, exp, total = run_isolated(body, caching=caching)
-    multiset = sk not in ("e", "e_cond") and not ck.startswith("unrel")      # (an unselected variable: the result set)
+    multiset = sk not in ("e", "e_cond", "e_or", "e_notand") and not ck.startswith("unrel")      # (an unselected variable: the result set)
     res = {"ok": True, "nontrivial": 0 < len(exp) < total, "transitions": 2,
            "tags": [f"sel={sk}", f"cond={ck}", f"caching={'on' if caching else 'off'}", f"parents={len(combo)}"]
                    + (["repeated_in_one_collection"] if any(isinstance(i, tuple) and len(set(i)) < len(i) for i in combo) else [])
